@@ -117,14 +117,18 @@ def parse_cbmc(out):
 
 def extract_schedule(trace, tnames):
     """contexts [thread, budget granted, visible ops executed] and harness nondet choices from a cbmc json trace"""
-    sched = []; nd = []
-    if not trace: return dict(contexts=[], nondet=[])
+    sched = []; nd = []; draws = []
+    if not trace: return dict(contexts=[], nondet=[], draws=[])
     for st in trace:
         if st.get('stepType') != 'assignment': continue
         lhs = st.get('lhs', '')
         val = st.get('value', {})
         data = val.get('data') if isinstance(val, dict) else None
         fn = (st.get('sourceLocation') or {}).get('function', '')
+        if lhs == 'v' and fn in ('vp_nd_int', 'vp_nd_uint', 'vp_nd_uchar'):
+            try: draws.append(int(str(data).rstrip('ulL')))
+            except Exception: pass
+            continue
         m = re.fullmatch(r'(\w+)_budget', lhs)
         if m and m.group(1) in tnames:
             try: v = int(str(data).rstrip('ul'))
@@ -133,7 +137,30 @@ def extract_schedule(trace, tnames):
             elif sched and sched[-1][0] == m.group(1): sched[-1][2] += 1
         elif fn in ('vp_nondet_int', 'vp_nondet_bool', 'vp_nondet_range', 'vp_timeout_fires', 'vp_cv_can_wake', 'vp_cv_notify_one', 'vp_clock_now') and lhs.startswith('return_value'):
             nd.append([fn, str(data)])
-    return dict(contexts=sched, nondet=nd[:64])
+    return dict(contexts=sched, nondet=nd[:64], draws=draws)
+
+
+def native_replay(cfile, draws, workdir, flags=()):
+    """Replay a counter-example on the native build of the same generated C (gcc + ASan/UBSan, real semantics instead of cbmc's
+    models of the C library): returns (reproduced, detail).  A counter-example that does not reproduce is an encoding
+    divergence (exit 2), never a VIOLATION."""
+    exe = cfile[:-2] + '.native'
+    cmd = ['gcc', '-DVP_NATIVE', '-g', '-O0', '-w', '-fsanitize=address,undefined', '-fno-sanitize-recover=undefined', '-I', os.path.join(ROOT, 'engine')] + list(flags) + \
+          [cfile, os.path.join(ROOT, 'engine', 'vp_native.c'), '-o', exe]
+    r = sh(cmd)
+    if r.returncode != 0: return None, 'native build failed: ' + r.stdout[-400:]
+    env = dict(os.environ, VP_NONDET=','.join(str(d) for d in draws), ASAN_OPTIONS='detect_leaks=0:abort_on_error=0')
+    try:
+        p = subprocess.run([exe], stdout=subprocess.PIPE, stderr=subprocess.PIPE, text=True, env=env, timeout=120)
+    except subprocess.TimeoutExpired:
+        return None, 'native replay timed out'
+    out = p.stdout + p.stderr
+    fails = re.findall(r'ASSERT-FAIL id=(-?\d+) (.*)', p.stdout)
+    san = re.findall(r'(ERROR: AddressSanitizer: [\w-]+|runtime error: [^\n]{0,80}|SEGV)', p.stderr)
+    if fails or san:
+        return True, '; '.join([f'id={i} {t}'[:90] for i, t in fails[:3]] + san[:2])
+    if 'ASSUME-FAIL' in p.stdout: return False, 'native run left the assumed region (assume failed)'
+    return False, 'native run of the generated C finished without any failure'
 
 
 class Runner:
@@ -336,6 +363,18 @@ def main():
                     nontrivial += 1
             elif verdict == 'violated':
                 r = detail
+                rep_note = ''
+                if not r.get('unreachable'):
+                    f0_ = r['parsed']['failed'][0]
+                    sc_ = extract_schedule(f0_['trace'], tn)
+                    ok_, why_ = native_replay(e['cfile'], sc_['draws'], R.work, Q.extra_flags)
+                    rec['native_replay'] = dict(reproduced=ok_, detail=why_, draws=len(sc_['draws']))
+                    if ok_ is not True:
+                        broken += 1
+                        rec['verdict'] = 'broken'; rec['detail'] = 'ENCODING-DIVERGENCE: solver counter-example does not reproduce on the native build of the generated C: ' + str(why_)
+                        print(f"BROKEN query={Q.name}: {rec['detail']} (cbmc said: {(f0_['description'] or '')[:80]})", file=sys.stderr)
+                        evq.append(rec); continue
+                    rep_note = why_
                 if r.get('unreachable'):
                     r['parsed']['failed'] = [dict(property='cover', description=f'required state (coverage mask {Q.must_cover}) is unreachable for every schedule inside the bound', trace=None)]
                 f0 = r['parsed']['failed'][0]
@@ -343,7 +382,7 @@ def main():
                 rp = os.path.join(ROOT, 'replays', a.pid, Q.name + '.json')
                 json.dump(dict(property=a.pid, query=Q.name, harness=Q.cpp, defines=list(Q.defines), q=Q.q, unwind=Q.unwind,
                                failed=[dict(property=f['property'], description=f['description']) for f in r['parsed']['failed']],
-                               schedule=sc['contexts'], solver=r['solver']), open(rp, 'w'), indent=1)
+                               schedule=sc['contexts'], nondet_draws=sc['draws'], solver=r['solver']), open(rp, 'w'), indent=1)
                 descs = '; '.join(sorted(set((f['description'] or '')[:90] for f in r['parsed']['failed'])))[:400]
                 rec['failed'] = [dict(property=f['property'], description=f['description']) for f in r['parsed']['failed']]
                 rec['counterexample_schedule'] = sc['contexts']
@@ -356,6 +395,7 @@ def main():
                     print(f"VIOLATION property={a.pid} replay={rp}")
                     print(f"  query={Q.name}: {descs}")
                     print(f"  schedule={sc['contexts']}")
+                    if rep_note: print(f"  reproduced on the native build of the encoded program (gcc -fsanitize=address,undefined): {rep_note}")
                     samples.append(dict(query=Q.name, counterexample_schedule=sc['contexts'], failed=descs))
             else:
                 broken += 1
